@@ -52,6 +52,11 @@ def build(spec):
         return T.number(num_token(v))
     if k == 'str':
         return T.string('"' + spec[1] + '"')
+    if k == 'apistr':  # a string literal as the library's own API (and simplify) builds it: token without quotes
+        from hpl.ast import HplLiteral
+        return HplLiteral.string(spec[1])
+    if k == 'tok':  # a number literal with an explicit spelling ('1.0', '1e1', '.5', '007')
+        return T.number(spec[1])
     if k == 'const':
         return T.number_constant(spec[1])
     if k == 'f':
@@ -106,6 +111,14 @@ def build_direct(spec):
     if k == 'str':
         t = '"' + spec[1] + '"'
         return HplLiteral(t, t)
+    if k == 'apistr':
+        return HplLiteral.string(spec[1])
+    if k == 'tok':
+        t = spec[1]
+        try:
+            return HplLiteral(t, int(t))
+        except ValueError:
+            return HplLiteral(t, float(t))
     if k == 'const':
         return HplLiteral(spec[1], {'PI': math.pi, 'E': math.e, 'INF': float('inf'), 'NAN': transformer().number_constant('NAN').value}[spec[1]])
     if k == 'f':
@@ -147,9 +160,9 @@ def render(spec) -> str:
         if v is True or v is False:
             return str(v)
         return num_token(v) if v >= 0 and not str(v).startswith('-') else f'-{num_token(-v)}'
-    if k == 'str':
+    if k in ('str', 'apistr'):
         return '"' + spec[1] + '"'
-    if k == 'const':
+    if k in ('const', 'tok'):
         return spec[1]
     if k == 'f':
         return spec[1]
